@@ -1170,3 +1170,15 @@ fire('r8-deps-forwarded-elementwise-guard', ['C03'], 'C03.INSTANCES',
 silent('r8-deps-forwarded-identity-and-emptiness', ['C03', 'C02', 'C06'],
        (LAB, 'TaskState.process_tasks', "            all_dependencies += dependency_tasks\n",
         "            if len(dependency_tasks) > 0:\n                all_dependencies += [d for d in dependency_tasks if d is not None]\n"))
+
+
+# round 9: a pending-dependency set loses only the finished task (C02); no early release (C10)
+fire('r9-failed-task-clears-dependents-pending-set', ['C02'], 'C02.UNBLOCK-ONLY-ON-COMPLETE',
+     (LAB, 'TaskState.complete_task', "            self.task_to_pending_dependencies[dependent].remove(task)\n",
+      "            if result_meta is None:\n                self.task_to_pending_dependencies[dependent].clear()\n            else:\n                self.task_to_pending_dependencies[dependent].discard(task)\n"))
+silent('r9-discard-instead-of-remove', ['C02', 'C10', 'C11'],
+       (LAB, 'TaskState.complete_task', "            self.task_to_pending_dependencies[dependent].remove(task)\n",
+        "            pending = self.task_to_pending_dependencies[dependent]\n            pending.discard(task)\n"))
+fire('r9-failed-task-releases-shared-dependency', ['C10'], 'C10.NO-EARLY-RELEASE',
+     (LAB, 'TaskState.complete_task', "            if len(self.task_to_pending_dependents[dependency]) == 0:\n",
+      "            if (result_meta is None) or len(self.task_to_pending_dependents[dependency]) == 0:\n"))
